@@ -38,9 +38,10 @@ MultiLap(S, ds, ws, rescale, i, j) ==
 \* normalised Laplacian core  S_ij = sum_e [i, j in e] / |e|   (unit weights)
 \* the same with edge weights taken from the attribute "weight" (key 4), 1 when absent
 WeightKey == 4
-EdgeWeight(S, e) == IF WeightKey \in DOMAIN S.eattr[e] THEN S.eattr[e][WeightKey][2] ELSE 1
+\* the "weight" attribute is logged in half units (fractional weights are ordinary), default 1
+EdgeWeight2(S, e) == IF WeightKey \in DOMAIN S.eattr[e] THEN S.eattr[e][WeightKey][2] ELSE 2
 NormCoreW(S, i, j) ==
-  FoldL(LAMBDA acc, e : IF i \in S.e2n[e] /\ j \in S.e2n[e] THEN RAdd(acc, Rat(EdgeWeight(S, e), SizeOf(S, e))) ELSE acc,
+  FoldL(LAMBDA acc, e : IF i \in S.e2n[e] /\ j \in S.e2n[e] THEN RAdd(acc, Rat(EdgeWeight2(S, e), 2 * SizeOf(S, e))) ELSE acc,
         <<0, 1>>, S.edges)
 NormCore(S, i, j) ==
   FoldL(LAMBDA acc, e : IF i \in S.e2n[e] /\ j \in S.e2n[e] THEN RAdd(acc, Rat(1, SizeOf(S, e))) ELSE acc,
